@@ -35,6 +35,36 @@ M = [
  ("join1-unreleased-not-set-on-ctx", "join/join.go", "\t\tcase <-dsc.opts.Ctx.Done():\n\t\t\tdsc.unreleased = true\n\t\t\treturn", "\t\tcase <-dsc.opts.Ctx.Done():\n\t\t\treturn", ["C08"]),
  ("join1-stop-ignored-in-release-wait", "join/join.go", "\t\tcase <-dsc.breaker.IsBreaked():\n\t\t\tdsc.unreleased = true\n\t\t\treturn\n", "", ["C16"]),
  ("join1-no-close-on-stop", "join/join.go", "\tdefer close(dsc.output)\n", "\tdefer func() {\n\t\tif !dsc.unreleased {\n\t\t\tclose(dsc.output)\n\t\t}\n\t}()\n", ["C16"]),
+ # ---- priority v2
+ ("prio2-vacants-ignore-one", "v2/priority/priority.go", "\tbusy := calcDistributionQuantity(dsc.actual)\n\n\t// we will not get an overflow because the correspondence of the quantities is\n\t// checked at all stages of distribution\n\treturn dsc.opts.HandlersQuantity - busy", "\tbusy := calcDistributionQuantity(dsc.actual)\n\tif len(dsc.priorities) > 1 && busy > 0 {\n\t\tbusy -= min(busy, dsc.actual[dsc.priorities[len(dsc.priorities)-1]])\n\t}\n\n\treturn dsc.opts.HandlersQuantity - busy", ["C01"]),
+ ("prio2-second-phase-divides-H", "v2/priority/priority.go", "\t\tdsc.useful,\n\t\tremainder,\n", "\t\tdsc.useful,\n\t\tdsc.opts.HandlersQuantity+0*remainder,\n", ["C01"]),
+ ("prio2-tactic-not-decremented", "v2/priority/priority.go", "\tdsc.decreaseTactic(priority)\n\tdsc.increaseActual(priority)\n\n\treturn 1", "\tif dsc.tactic[priority] > 1 {\n\t\tdsc.decreaseTactic(priority)\n\t}\n\tdsc.increaseActual(priority)\n\n\treturn 1", ["C01"]),
+ ("prio2-iou-drops-item-on-interrupt", "v2/priority/priority.go", "\t\t\tinterrupt = false\n\n\t\t\tprocessed += dsc.send(item, priority)", "\t\t\tif interrupt {\n\t\t\t\tinterrupt = false\n\t\t\t\tcontinue\n\t\t\t}\n\n\t\t\tprocessed += dsc.send(item, priority)", ["C02"]),
+ ("prio2-zero-item-on-close", "v2/priority/priority.go", "\t\t\tif !opened {\n\t\t\t\tdsc.markInputAsDrained(priority)\n\t\t\t\treturn processed\n\t\t\t}\n\n\t\t\tprocessed += dsc.send(item, priority)\n\t\tdefault:", "\t\t\tif !opened {\n\t\t\t\tdsc.markInputAsDrained(priority)\n\t\t\t}\n\n\t\t\tprocessed += dsc.send(item, priority)\n\t\tdefault:", ["C02"]),
+ ("prio2-wrong-tag", "v2/priority/priority.go", "\t\tPriority: priority,\n\t\tItem:     item,", "\t\tPriority: dsc.priorities[0],\n\t\tItem:     item,", ["C02"]),
+ ("prio2-priorities-not-sorted", "v2/priority/priority.go", "\tcommon.SortPriorities(priorities)\n", "", ["C05", "C15"]),
+ ("prio2-topup-ge", "v2/priority/priority.go", "\t\tif dsc.actual[priority] > dsc.strategic[priority] {\n\t\t\treturn false\n\t\t}", "\t\tif dsc.actual[priority] >= dsc.strategic[priority] && dsc.actual[priority] != 0 {\n\t\t\treturn false\n\t\t}", ["C05"]),
+ ("prio2-divide-among-all", "v2/priority/priority.go", "\terr := safeDivide(\n\t\tdsc.opts.Divider,\n\t\tdsc.uncrowded,\n\t\tvacants,", "\terr := safeDivide(\n\t\tdsc.opts.Divider,\n\t\tdsc.priorities,\n\t\tvacants,", []),  # only reachable when some priority is over its share: none of the given properties speaks about that state
+ ("prio2-wait-all-priorities", "v2/priority/priority.go", "\treturn dsc.isTacticFilled(dsc.uncrowded), nil", "\treturn dsc.isTacticFilled(dsc.priorities), nil", []),  # delays a round until a release arrives; progress as stated in C06 still holds
+ ("prio2-second-phase-skipped", "v2/priority/priority.go", "\tif !proceed {\n\t\treturn processed, nil\n\t}\n\n\tprocessed += dsc.prioritize()\n\n\treturn processed, nil", "\t_ = proceed\n\n\treturn processed, nil", ["C06"]),
+ ("prio2-return-on-idle", "v2/priority/priority.go", "\t\t\tif dsc.isDrainedInputs() {\n\t\t\t\treturn nil\n\t\t\t}", "\t\t\tif dsc.isDrainedInputs() || len(dsc.inputs) > 2 {\n\t\t\t\treturn nil\n\t\t\t}", ["C07"]),
+ ("prio2-no-wait-zero-actual", "v2/priority/priority.go", "\tdefer dsc.waitZeroActual()\n", "", ["C07", "C15"]),
+ ("prio2-drained-any", "v2/priority/priority.go", "func (dsc *Discipline[Type]) isDrainedInputs() bool {\n\tfor _, input := range dsc.inputs {\n\t\tif !input.Drained {\n\t\t\treturn false\n\t\t}\n\t}\n\n\treturn true", "func (dsc *Discipline[Type]) isDrainedInputs() bool {\n\tfor _, input := range dsc.inputs {\n\t\tif input.Drained {\n\t\t\treturn true\n\t\t}\n\t}\n\n\treturn false", ["C07", "C02"]),
+ ("prio2-ignore-divider-error-in-recalc", "v2/priority/priority.go", "\tif err != nil {\n\t\treturn false, err\n\t}\n\n\tdsc.updateUsefulLikeUncrowded()", "\tdsc.updateUsefulLikeUncrowded()", ["C15"]),
+ ("prio2-safedivide-only-over", "v2/priority/assist.go", "\tif after-before != dividend {", "\tif after-before > dividend {", ["C15"]),
+ ("prio2-new-accepts-zero-share", "v2/priority/priority.go", "\tif !common.IsDistributionFilled(strategic) {\n\t\treturn nil, nil, nil, ErrHandlersQuantityTooSmall\n\t}\n", "", ["C15"]),
+ # ---- priority v1
+ ("prio1-stop-spin-reverted", "priority/priority.go", "\t\tif interrupted := dsc.getOneFeedback(); interrupted {\n\t\t\treturn true, nil\n\t\t}", "\t\tdsc.getOneFeedback()", ["C16"]),
+ ("simple1-graceful-blocks-stop-reverted", "priority/simple.go", "\t\tsmpl.gracefulStop()\n", "\t\tsmpl.priority.GracefulStop()\n", ["C16"]),
+ ("prio1-remove-forgets-inflight", "priority/priority.go", "\tdelete(dsc.inputs, priority)\n\tdelete(dsc.tactic, priority)\n", "\tdelete(dsc.inputs, priority)\n\tdelete(dsc.tactic, priority)\n\tdelete(dsc.actual, priority)\n", ["C01", "C17"]),
+ ("prio1-remove-keeps-reading", "priority/priority.go", "\tdsc.priorities = removePriority(dsc.priorities, priority)\n\tdsc.strategic = dsc.opts.Divider(dsc.priorities, dsc.opts.HandlersQuantity, nil)\n}", "\tdsc.priorities = removePriority(dsc.priorities, priority)\n\tdsc.strategic = dsc.opts.Divider(dsc.priorities, dsc.opts.HandlersQuantity, nil)\n}", []),
+ ("prio1-remove-drains-buffer-first", "priority/priority.go", "func (dsc *Discipline[Type]) removeInput(priority uint) {\n", "func (dsc *Discipline[Type]) removeInput(priority uint) {\n\tif len(dsc.inputs[priority].Channel) != 0 {\n\t\treturn\n\t}\n", ["C17"]),
+ ("prio1-add-keeps-drained-flag", "priority/priority.go", "\t_, exists := dsc.inputs[priority]\n\n\tinput := common.Input[Type]{\n\t\tChannel: channel,\n\t}", "\told, exists := dsc.inputs[priority]\n\n\tinput := common.Input[Type]{\n\t\tChannel: channel,\n\t\tDrained: old.Drained,\n\t}", ["C17"]),
+ ("prio1-send-after-stop", "priority/priority.go", "\tselect {\n\tcase <-dsc.breaker.IsBreaked():\n\t\treturn 0\n\tcase <-dsc.opts.Ctx.Done():\n\t\treturn 0\n\tcase dsc.opts.Output <- prioritized:", "\tselect {\n\tcase <-dsc.opts.Ctx.Done():\n\t\treturn 0\n\tcase dsc.opts.Output <- prioritized:", ["C16"]),
+ ("prio1-graceful-ignores-actual", "priority/priority.go", "func (dsc *Discipline[Type]) waitZeroActual() {\n\tfor !dsc.isZeroActual() {", "func (dsc *Discipline[Type]) waitZeroActual() {\n\tfor !dsc.isZeroActual() && len(dsc.actual) > 1 {", ["C07"]),
+ ("simple1-handlers-not-awaited", "priority/simple.go", "\tdefer smpl.wg.Wait()\n", "", ["C16", "C19"]),
+ ("simple2-release-before-handle", "v2/priority/simple/simple.go", "\t\tdsc.opts.Handle(prioritized.Item)\n\t\tdsc.priority.Release(prioritized.Priority)", "\t\tdsc.priority.Release(prioritized.Priority)\n\t\tdsc.opts.Handle(prioritized.Item)", ["C07"]),
+ ("limit-leaks-helper-goroutine", "v2/limit/limit.go", "\tgo dsc.main()\n", "\tgo dsc.main()\n\tgo func() {\n\t\t<-make(chan struct{})\n\t}()\n", ["C19"]),
 ]
 
 def main():
